@@ -8,6 +8,8 @@ NOTE = ('Trusted base: qtmodel (fixed-capacity executable stand-ins for the Qt c
         'll2c IR->C translator, clang-14 -O0 IR semantics, CBMC 6.11 + SAT back end; everything outside the stated bounds (evidence: coverage.bounds/outside) is not claimed.')
 CLAIMS = {
  'C01': ('model_checking', 'For every handler tree within the bound (kinds, parameters, verdicts, scoped flags, shared handlers and the incoming message state are solver variables) the real Pipeline::process and the per-kind process() adapters deliver to every recording sink exactly what a reference interpreter written from the statement predicts, and leave exactly the predicted residual message state.', '4/C01'),
+ 'C02': ('model_checking', 'Every nested-preemption schedule (bounded depth/rounds) of producer threads logging through the installed real Logger (processMessage, OwnThreadHandler::process, Pipeline::process, SeqNumberAttr) is decided: at most one thread inside the pipeline, exactly-once delivery, per-thread order, consecutive sequence numbers. Counterexamples replay natively on the real code over the sequentialised Qt model, not on OS threads.', '3.6 and 5'),
+ 'C11': ('model_checking', 'For every number/size of earlier messages and every write-buffer threshold within the bounds, after processMessage(QtFatalMsg) on a synchronous logger the DURABLE bytes of the file sink equal all records (file-system model with user-space buffer). Found and confirmed the missing flush, now fixed.', '5/C11'),
  'C12': ('model_checking', 'parseFormatSpec for every spec string and applyPadding for every value/fill/align/width/mode within the bounds are decided against the documented grammar; parsePattern+format are decided end to end on 13 concrete pattern skeletons with fully symbolic values (every UTF-16 unit, incl. U+200B, %, {, }, surrogates) against a reference formatter written from the docs. Found and confirmed the in-band U+200B marker defect, now fixed.', '4/C12'),
  'C13': ('model_checking', 'For every message / attribute set within the bounds the real JsonFormatter::format + LogMessage::allAttributes hand the serializer exactly one object with the 8 built-in fields and every custom attribute, values intact, and request compact output iff configured. The JSON TEXT (syntax, escaping, one line) is Qt-internal and assumed by contract - stated in evidence.outside.', '4/C13'),
  'C15': ('model_checking', 'For every rule pattern / category / type within the bounds the real CategoryFilter (constructor, parseRules, matches, filter) agrees with a glob-based ordered-rules reference; the regular-expression engine is the conformance-tested regex model (closed form for the rule-line expression, position-automaton for the escaped category expressions).', '4/C15'),
